@@ -731,3 +731,79 @@ example (fs : FS) (kfuel fuel : Nat) (cwdS : Str) (cwd : Loc) (base loc : Str) (
       (read fs kfuel fuel cwdS cwd base loc offset length EntryPoint.tofile).2 := rfl
 
 end IrVerif.Path
+
+/-! ### `load()` gives EVERY external tensor of the model the base directory -/
+namespace IrVerif.Path
+
+mutual
+theorem reachGraph_sub : ∀ (g : GTree) (x : String), x ∈ reachGraph g → x ∈ g.inits ∨ x ∈ walkGraphNodes g
+  | GTree.mk i nodes, x, h => by
+    simp only [reachGraph, List.mem_append] at h
+    rcases h with h | h
+    · exact Or.inl h
+    · exact Or.inr (by simpa [walkGraphNodes] using reachNodes_sub nodes x h)
+theorem reachNodes_sub : ∀ (ns : List NTree) (x : String), x ∈ reachNodes ns → x ∈ walkNodes ns
+  | [], x, h => by simp [reachNodes] at h
+  | n :: ns, x, h => by
+    simp only [reachNodes, List.mem_append] at h
+    simp only [walkNodes, List.mem_append]
+    rcases h with h | h
+    · exact Or.inl (reachNode_sub n x h)
+    · exact Or.inr (reachNodes_sub ns x h)
+theorem reachNode_sub : ∀ (n : NTree) (x : String), x ∈ reachNode n → x ∈ walkNode n
+  | NTree.mk ta gs, x, h => by
+    simp only [reachNode, List.mem_append] at h
+    simp only [walkNode, List.mem_append]
+    rcases h with h | h
+    · exact Or.inl (Or.inl h)
+    · rcases reachGraphs_sub gs x h with h' | h'
+      · exact Or.inl (Or.inr h')
+      · exact Or.inr h'
+theorem reachGraphs_sub : ∀ (gs : List GTree) (x : String), x ∈ reachGraphs gs →
+    x ∈ initsOf gs ∨ x ∈ walkGraphs gs
+  | [], x, h => by simp [reachGraphs] at h
+  | g :: gs, x, h => by
+    simp only [reachGraphs, List.mem_append] at h
+    simp only [initsOf, walkGraphs, List.mem_append]
+    rcases h with h | h
+    · rcases reachGraph_sub g x h with h' | h'
+      · exact Or.inl (Or.inl h')
+      · exact Or.inr (Or.inl h')
+    · rcases reachGraphs_sub gs x h with h' | h'
+      · exact Or.inl (Or.inr h')
+      · exact Or.inr (Or.inr h')
+end
+
+/-- **C10_load_all_positions**: the walker behind `set_base_dir` (`_all_tensors` with attributes,
+over `RecursiveGraphIterator`) reaches EVERY tensor position of the model: initializers and
+TENSOR/TENSORS attribute tensors of the main graph and of every graph nested at any depth through
+GRAPH/GRAPHS attributes.  Hence after `load(p)` every external tensor of the model has the base
+directory `loadBase p`, which is never empty (C10_load_base_nonempty) and is the model's directory
+(C10_load_base_is_model_dir): the assignment `assign` made by `set_base_dir` covers all of
+`reachGraph g`. -/
+theorem C10_load_all_positions (g : GTree) (p : Str) (x : String) (hx : x ∈ reachGraph g) :
+    x ∈ allTensors g ∧
+    (∀ (baseOf : String → Str), (∀ y ∈ allTensors g, baseOf y = loadBase p) →
+      baseOf x = loadBase p ∧ baseOf x ≠ []) := by
+  have hmem : x ∈ allTensors g := by
+    unfold allTensors
+    rcases reachGraph_sub g x hx with h | h
+    · exact List.mem_append.mpr (Or.inl h)
+    · exact List.mem_append.mpr (Or.inr h)
+  refine ⟨hmem, ?_⟩
+  intro baseOf hset
+  have := hset x hmem
+  exact ⟨this, by rw [this]; exact C10_load_base_nonempty p⟩
+
+/-- the seeded shallow walker (`for node in graph`) misses a tensor attribute of a node inside an
+If branch and an initializer two levels down: the theorem is about the recursive walker -/
+example :
+    let inner := GTree.mk ["deep_init"] []
+    let branch := GTree.mk ["d1_init"] [NTree.mk ["d1_attr"] [inner]]
+    let g := GTree.mk ["main_init"] [NTree.mk ["main_attr"] [branch]]
+    "d1_attr" ∈ reachGraph g ∧ "deep_init" ∈ reachGraph g ∧
+    "d1_attr" ∉ allTensorsShallow g ∧ "deep_init" ∉ allTensorsShallow g ∧
+    "d1_attr" ∈ allTensors g ∧ "deep_init" ∈ allTensors g := by
+  decide
+
+end IrVerif.Path
